@@ -200,7 +200,10 @@ OpM == [ Base EXCEPT !.sel = <<"n","g","s">>, !.kind = "meth", !.pos = <<"p","q"
 \* a second class of the same name in another module, with a method of the same name: their sections need their modules
 OpG2 == [ Base EXCEPT !.sel = <<"m","g">>, !.kind = "cls", !.pos = <<"x">>, !.npd = 1, !.dflt = {<<"x", D("x")>>}, !.api = "register" ]
 OpM2 == [ Base EXCEPT !.sel = <<"m","g","s">>, !.kind = "meth", !.pos = <<"p">>, !.npd = 1, !.dflt = {<<"p", D("p")>>}, !.api = "register" ]
-OpConfs == {OpF, OpG, OpH, GinMacro, OpM, GinSingleton, OpG2, OpM2}
+\* ... and a second class in the *same* module with a method of the same name
+OpK == [ Base EXCEPT !.sel = <<"n","k">>, !.kind = "cls", !.pos = <<"x">>, !.npd = 1, !.dflt = {<<"x", D("x")>>}, !.api = "register" ]
+OpMK == [ Base EXCEPT !.sel = <<"n","k","s">>, !.kind = "meth", !.pos = <<"p">>, !.npd = 1, !.dflt = {<<"p", D("p")>>}, !.api = "register" ]
+OpConfs == {OpF, OpG, OpH, GinMacro, OpM, GinSingleton, OpG2, OpM2, OpK, OpMK}
 OpRegs == {OpConfs}
 OpValsF == { L1, L2, N1, R(<<"n","g">>, <<>>, "call"), R(<<"n","g">>, <<"a">>, "call"), Pct(<<"W">>),
              R(<<"gin","singleton">>, <<"s1">>, "call"),        \* a singleton: its section (and its constructor) belong to the record
@@ -209,7 +212,7 @@ OpValsG == { L1, L2 }
 OpValsM == { L1, L2 }
 OpFilter(sc, c, v) ==
   \/ c.sel = <<"m","f">> /\ v \in OpValsF
-  \/ c.sel \in {<<"n","g">>, <<"n","h">>, <<"n","g","s">>, <<"m","g">>, <<"m","g","s">>} /\ v \in OpValsG
+  \/ c.sel \in {<<"n","g">>, <<"n","h">>, <<"n","g","s">>, <<"m","g">>, <<"m","g","s">>, <<"n","k">>, <<"n","k","s">>} /\ v \in OpValsG
   \/ c.sel = <<"gin","macro">> /\ v \in OpValsM /\ sc = <<"W">>
   \/ c.sel = <<"gin","singleton">> /\ v = R(<<"n","g">>, <<>>, "bare") /\ sc = <<"s1">>
 OpBindVals == OpValsF \cup OpValsG \cup OpValsM \cup { R(<<"n","g">>, <<>>, "bare") }
